@@ -65,6 +65,12 @@ type DiskTracker struct {
 	enabled  bool
 	lastSig  string
 	Capture  bool // images are taken only while the scheduler serialises execution
+	// torn-write synthesis
+	Torn      bool
+	TornEvery int // derive torn variants at every k-th append event
+	TornCuts  int // sampled interior cut offsets for long records
+	appends   int
+	TornCount int
 }
 
 func NewDiskTracker(dirs []string, power bool, every, max int) *DiskTracker {
@@ -236,6 +242,101 @@ func (d *DiskTracker) OnIO(kind, path string, off, n int64) {
 	}
 	d.mu.Unlock()
 	d.event(kind, path)
+	if d.Torn && d.Capture && (kind == "mwrite-wal" || kind == "mwrite-vlog" || (kind == "fwrite" && strings.HasSuffix(path, "MANIFEST"))) {
+		d.mu.Lock()
+		d.appends++
+		if d.TornEvery <= 1 || d.appends%d.TornEvery == 0 {
+			d.tornLocked(kind, path, off, n)
+		}
+		d.mu.Unlock()
+	}
+}
+
+// tornLocked derives, from the directory as it is right after an append of n
+// bytes at off, the images a crash in the middle of that append would leave:
+// the record cut at byte k with the rest zero-filled, or the file ending at k.
+func (d *DiskTracker) tornLocked(kind, path string, off, n int64) {
+	if len(d.Images) >= d.MaxImgs {
+		return
+	}
+	c, sz, ok := d.content(path)
+	if !ok || n <= 0 {
+		return
+	}
+	if kind == "fwrite" {
+		off = sz - n
+	}
+	if off < 0 || off+n > sz {
+		return
+	}
+	saved := d.lastSig
+	d.lastSig = ""
+	basis := d.captureLocked("kill", fmt.Sprintf("#%d %s %s", d.Events, kind, filepath.Base(path)))
+	d.lastSig = saved
+	if basis == nil {
+		return
+	}
+	// the basis itself is an ordinary kill image (already in d.Images)
+	cuts := map[int64]bool{}
+	if n <= 48 {
+		for k := int64(0); k < n; k++ {
+			cuts[k] = true
+		}
+	} else {
+		for k := int64(0); k < 20; k++ {
+			cuts[k] = true
+			cuts[n-1-k] = true
+		}
+		step := n / int64(d.TornCuts+1)
+		if step < 1 {
+			step = 1
+		}
+		for k := step; k < n; k += step {
+			cuts[k] = true
+		}
+	}
+	ks := make([]int64, 0, len(cuts))
+	for k := range cuts {
+		ks = append(ks, k)
+	}
+	sort.Slice(ks, func(i, j int) bool { return ks[i] < ks[j] })
+	dir, name := filepath.Dir(path), filepath.Base(path)
+	full := append([]byte{}, c...)
+	for _, k := range ks {
+		for variant := 0; variant < 2; variant++ {
+			if len(d.Images) >= d.MaxImgs {
+				return
+			}
+			var fi FileImg
+			var vname string
+			if variant == 0 {
+				// rest of the record never reached the file: zeros
+				buf := append([]byte{}, full...)
+				for i := off + k; i < off+n; i++ {
+					buf[i] = 0
+				}
+				fi = FileImg{Size: sz, Blob: d.blob(buf)}
+				vname = "zero-filled"
+			} else {
+				fi = FileImg{Size: off + k, Blob: d.blob(full[:off+k])}
+				vname = "truncated"
+			}
+			img := &Image{Event: basis.Event, Kind: "torn", At: fmt.Sprintf("%s cut at byte %d/%d (%s)", basis.At, k, n, vname),
+				Dirs: map[string]map[string]FileImg{}, Acked: basis.Acked, NCommits: basis.NCommits, Step: basis.Step, Phase: basis.Phase}
+			for dd, files := range basis.Dirs {
+				nf := make(map[string]FileImg, len(files))
+				for fn, f := range files {
+					nf[fn] = f
+				}
+				if filepath.Clean(dd) == filepath.Clean(dir) {
+					nf[name] = fi
+				}
+				img.Dirs[dd] = nf
+			}
+			d.Images = append(d.Images, img)
+			d.TornCount++
+		}
+	}
 }
 
 func (d *DiskTracker) event(kind, path string) {
